@@ -25,10 +25,22 @@ ASSUMPTIONS = [
 
 def make_stream(case, data):
     kind = case["stream"]
+    pre = bytes.fromhex(case.get("pre") or "")
+    if kind == "pipe":
+        from pv.doubles import pipe_like
+
+        return pipe_like(data, case.get("bufsize", 64)), None
     if kind == "bytesio":
-        return io.BytesIO(data), None
+        # `pre`: the application consumed a file header (or an earlier reader part of the stream) before this reader
+        # got the stream: the reader starts where the stream stands
+        st_ = io.BytesIO(pre + data)
+        st_.seek(len(pre))
+        return st_, None
     if kind == "buffered":
-        return io.BufferedReader(io.BytesIO(data), buffer_size=case["bufsize"]), None
+        st_ = io.BufferedReader(io.BytesIO(pre + data), buffer_size=case["bufsize"])
+        if pre:
+            st_.read(len(pre))
+        return st_, None
     gaps = case.get("gaps") or []
     bounds = []
     off = 0
@@ -142,6 +154,8 @@ def o_seq(case):
         cls.append("item-aligned-to-buffer-size")
     if case.get("ubxlen"):
         cls.append("ubx-length-at-block-boundary")
+    if case.get("pre"):
+        cls.append("stream-handed-over-in-the-middle")
     if case.get("long"):
         cls.append("long-stream")
         if len(data) > 1024 * 1024:
@@ -172,9 +186,16 @@ def s_seq(draw, tier):
     items = streams.flatten(draw(st.lists(streams.wellformed_items("small", fillers_ok=fill_ok), min_size=1, max_size=14)))
     has_filler = any(i["k"] == "filler" for i in items)
     case = {"items": items}
-    case["stream"] = draw(st.sampled_from(["bytesio", "buffered", "socket"]))
+    case["stream"] = draw(st.sampled_from(["bytesio", "buffered", "socket", "pipe"]))
     case["parsed"] = draw(st.sampled_from([True, True, False]))
     case["qoe"] = draw(st.sampled_from([0, 1, 2]))
+    if case["stream"] == "pipe":
+        case["bufsize"] = draw(st.sampled_from([1, 16, 64, 8192]))
+    if case["stream"] in ("bytesio", "buffered") and draw(st.integers(0, 2)) == 0:
+        # what the application consumed before handing the stream over: frames and foreign items like those that follow
+        # (a reader that seeks by its own byte count would land in them), 20 .. a few hundred bytes
+        head = streams.flatten(draw(st.lists(streams.wellformed_items("small", fillers_ok=False), min_size=1, max_size=4)))
+        case["pre"] = (streams.join(head) + bytes(draw(st.integers(0, 40))))[:600].hex()
     if case["stream"] == "buffered":
         case["bufsize"] = draw(st.sampled_from([1, 2, 3, 7, 16, 64, 4096, 8192, 8192]))  # 8192: what open(path, "rb") uses
     if case["stream"] == "socket":
@@ -325,7 +346,7 @@ SUBS = [
         enum=e_all,
         examples=(150, 4000),
         rule="see property rule",
-        need={"raise-mode-with-filler": 1, "socket-delivery-gaps": 1, "more-than-1MiB-through-one-socket": 1, "long-stream": 1, "ubx-length>=32767": 1, "item-aligned-to-buffer-size": 300, "ubx-length-at-block-boundary": 100, "two-byte-payload-frame": 1, "zero-length-frame": 1, "has-1023-frame": 1, "ubx-with-sync-bytes": 1, "socket": 1, "buffered": 1, "qoe2": 1},
+        need={"raise-mode-with-filler": 1, "socket-delivery-gaps": 1, "more-than-1MiB-through-one-socket": 1, "long-stream": 1, "ubx-length>=32767": 1, "item-aligned-to-buffer-size": 300, "ubx-length-at-block-boundary": 100, "stream-handed-over-in-the-middle": 20, "pipe": 1, "two-byte-payload-frame": 1, "zero-length-frame": 1, "has-1023-frame": 1, "ubx-with-sync-bytes": 1, "socket": 1, "buffered": 1, "qoe2": 1},
         sample=_sample,
     ),
 ]
